@@ -220,7 +220,8 @@ def judge(ctx, g, case):
                         # the option was accepted: it has answered (on stdout) and ended the program with success
                         ok = True
                         ctx.count("self_answering_options_accepted")
-                        if flag == "exit:version" and ("release<%s>" % o) not in out.getvalue():
+                        # (argparse folds the text to the width of the terminal)
+                        if flag == "exit:version" and ("release<%s>" % o) not in "".join(out.getvalue().split()):
                             problems.append(("version-option-prints-something-else",
                                              {"argv": argv, "printed": out.getvalue()[:80]}))
                     elif err.code != 2:
